@@ -17,6 +17,7 @@ RULE = ('string literals: each of the 256 byte values alone, every ordered pair 
         'each with a random escape spelling, used through write, writeln, an indexing loop, .length, `is byte[]`, as string[] element, as a global, '
         'and as asciip command-line argument; char literals for all 256 values in value and write(byte) position; constant int/byte/bool/string '
         'arrays of every length 0..40, global and local, const and mutable, with boundary element values (bool arrays bit by bit); word sizes 2,3,4; '
+        'every character written raw in literals and comments of a source file read through SourceCode.from_file (control characters, NEL, LS/PS, BOM, astral); '
         'a case is one constant in one program; all cases non-trivial; distinct by (bytes, usage)')
 ASSUMPTIONS = common.ISA_ASSUMPTIONS[:3] + ['.ascii / character immediates use the escapes \\\\ \\" \\\' \\n \\r \\t \\0 \\a \\b \\f \\v \\xHH']
 REQUIRED_HIDC_FUNCTIONS = ['codegen/asm:_escape_bytes', 'codegen/generator:CodeGen.pack_bools', 'codegen/generator:CodeGen.label_for_string']     # M-COV: deciding code never entered => inconclusive
@@ -32,6 +33,7 @@ def plan(tier, seed):
     specs += [{'kind': 'chars', 'word': w} for w in (2, 4)]
     specs += [{'kind': 'arrays', 'part': i, 'parts': 4, 'word': 2 + i % 3, 'seed': seed} for i in range(4)]
     specs += [{'kind': 'collisions', 'word': w} for w in (2, 3)]
+    specs += [{'kind': 'rawfile', 'word': w} for w in (2, 3)]
     n, per = (4, 60) if tier == 'quick' else (16, 250)
     for j in range(n):
         specs.append({'kind': 'random', 'seed': seed * 1000 + j, 'count': per})
@@ -202,6 +204,51 @@ def run_shard(spec):
                 run_expect(res, src, [], word, bytes(exp), f'constant {el} arrays of length {n}', [runner.case_id('array', el, n, word, w) for w in 'abcd'])
         res['exhaustive'] = True
         res['samples'].append({'arrays': 'const/mutable x global/local arrays of int, byte, bool, string, lengths 0..40'})
+    elif k == 'rawfile':
+        # every character written RAW (unescaped) inside string literals, char literals and comments of a source FILE, read
+        # through SourceCode.from_file as the command-line tool does: control characters, the Unicode line and paragraph
+        # separators, NEL, BOM, astral characters.  (CR cannot be written raw: text mode turns it into a line break.)
+        from ..svm.asm import assemble
+        from ..svm.vm import VM, Outcome
+        word = spec['word']
+        cps = [c for c in range(1, 0x80) if c not in (10, 13, 0x22, 0x5c)] + [0x80, 0x85, 0xa0, 0xff, 0x100, 0x2028, 0x2029, 0xfeff, 0xfffd, 0x1F30E, 0x10FFFF]
+        for group in range(0, len(cps), 8):
+            chunk = cps[group:group + 8]
+            body, want = [], bytearray()
+            for c in chunk:
+                ch = chr(c)
+                enc = ch.encode('utf-8')
+                body.append(f'    write("a{ch}b"); write("{ch}".length); // c {ch} c\n')
+                want += b'a' + enc + b'b' + str(len(enc)).encode()
+                if c < 0x80 and c != 0x27:
+                    body.append(f"    write('{ch}'); write(\"{ch}{ch}\"[1] is int);\n")
+                    want += enc + str(c).encode()
+            data = ('empty @is_you() {\n' + ''.join(body) + '    writeln();\n}\n').encode('utf-8')
+            res['evaluations'] += 1
+            tag = 'raw characters ' + ' '.join('U+%04X' % c for c in chunk) + ' in a source file'
+            case = {'input_bytes': data.decode('latin-1'), 'word': word, 'via': 'SourceCode.from_file', 'what': tag}
+            try:
+                lines = env.compile_file_bytes(data, word=word, stack=500)
+            except Exception as e:  # noqa
+                runner.fail(res, 'M-DATA', f'{tag}: {type(e).__name__}: {e}', case)
+                continue
+            try:
+                vm = VM(assemble(lines, []), 2_000_000, [])
+                vm.run()
+                o = Outcome(vm)
+            except Exception as e:  # noqa  AsmError
+                runner.fail(res, 'M-ASM', f'{tag}: emitted assembly rejected: {e}', case)
+                continue
+            want += b'\n'
+            if o.out != bytes(want) or o.klass != 'WIN':
+                kk = next((i for i, (a, b) in enumerate(zip(o.out, want)) if a != b), min(len(o.out), len(want)))
+                runner.fail(res, 'M-DATA', f'{tag}: output differs from the denoted bytes at offset {kk}: got {o.out[max(0, kk - 8):kk + 8]!r}, want {bytes(want[max(0, kk - 8):kk + 8])!r}',
+                            case, expected=bytes(want).decode('latin-1'), observed=o.brief())
+                continue
+            runner.count(res, 'programs_exact')
+            runner.count(res, 'bytes_compared', len(want))
+            res['nontrivial'].extend(runner.case_id('raw', c, word) for c in chunk)
+        res['exhaustive'] = True
     elif k == 'collisions':
         # several constant tables in ONE program whose emitted rows or values coincide although element type,
         # length or constness differ: each must still be its own array (sharing / caching of constant data)
